@@ -182,6 +182,100 @@ fn match_dependence(sc: &Scenario, doc: &MVal, sw: u8, hash_seed: u64) -> &'stat
     }
 }
 
+/// The model document for the frozen reference build (its traits are distinct types from the
+/// engine under test): same value kinds as the simulator's plain rendering.
+enum RVal {
+    Null,
+    Bool(bool),
+    Int(i64),
+    UInt(u64),
+    Float(f64),
+    Str(String),
+    Arr(Vec<RVal>),
+    Obj(RObj),
+}
+struct RObj(Vec<(String, RVal)>);
+
+impl tau_engine_ref::AsValue for RVal {
+    fn as_value(&self) -> tau_engine_ref::Value<'_> {
+        use tau_engine_ref::Value as V;
+        match self {
+            RVal::Null => V::Null,
+            RVal::Bool(b) => V::Bool(*b),
+            RVal::Int(i) => V::Int(*i),
+            RVal::UInt(u) => V::UInt(*u),
+            RVal::Float(f) => V::Float(*f),
+            RVal::Str(s) => V::String(std::borrow::Cow::Borrowed(s)),
+            RVal::Arr(a) => V::Array(a),
+            RVal::Obj(o) => V::Object(o),
+        }
+    }
+}
+
+impl tau_engine_ref::Object for RObj {
+    fn get(&self, key: &str) -> Option<tau_engine_ref::Value<'_>> {
+        use tau_engine_ref::AsValue;
+        self.0.iter().find(|(k, _)| k == key).map(|(_, v)| v.as_value())
+    }
+    fn keys(&self) -> Vec<std::borrow::Cow<'_, str>> {
+        self.0.iter().map(|(k, _)| std::borrow::Cow::Borrowed(k.as_str())).collect()
+    }
+    fn len(&self) -> usize {
+        self.0.len()
+    }
+}
+
+fn to_rval(v: &MVal, ints_signed: bool) -> RVal {
+    match v {
+        MVal::Null => RVal::Null,
+        MVal::Bool(b) => RVal::Bool(*b),
+        MVal::Int(i) => RVal::Int(*i),
+        MVal::UInt(u) => {
+            if ints_signed && *u <= i64::MAX as u64 {
+                RVal::Int(*u as i64)
+            } else {
+                RVal::UInt(*u)
+            }
+        }
+        MVal::Float(f) => RVal::Float(f.0),
+        MVal::Str(s) => RVal::Str(s.clone()),
+        MVal::Arr(a) => RVal::Arr(a.iter().map(|x| to_rval(x, ints_signed)).collect()),
+        MVal::Obj(o) => RVal::Obj(RObj(o.iter().map(|(k, x)| (k.clone(), to_rval(x, ints_signed))).collect())),
+    }
+}
+
+/// The (unoptimised, optimised) verdict pair of the frozen reference build (sim/ref, a copy of the
+/// engine at the commit the known findings were recorded at) for this rule text, switch set and
+/// document. None when the reference rejects the rule or panics.
+fn reference_pair(text: &str, doc: &MVal, sw: u8, ints_signed: bool) -> Option<(bool, bool)> {
+    let root = match to_rval(doc, ints_signed) {
+        RVal::Obj(o) => o,
+        _ => RObj(vec![]),
+    };
+    guarded(|| {
+        let rule = tau_engine_ref::Rule::from_str(text).ok()?;
+        let u = rule.matches(&root);
+        let o = rule
+            .optimise(tau_engine_ref::Optimisations {
+                coalesce: sw & SW_COALESCE != 0,
+                shake: sw & SW_SHAKE != 0,
+                rewrite: sw & SW_REWRITE != 0,
+                matrix: sw & SW_MATRIX != 0,
+            })
+            .matches(&root);
+        Some((u, o))
+    })
+    .ok()
+    .flatten()
+}
+
+/// The same pair from the engine under test.
+fn tested_pair(rule: &Rule, doc: &MVal, sc: &Scenario, sw: u8, hash_seed: u64) -> Option<(bool, bool)> {
+    let u = verdict(rule, doc, &sc.render).ok()?;
+    let o = verdict(&optimise(rule, sw, hash_seed).ok()?, doc, &sc.render).ok()?;
+    Some((u, o))
+}
+
 /// Attribution of a verdict difference: the minimal failing switch subset, the two-valued lens
 /// and, for classical differences, the dependence on all()/of() over an identifier.
 pub fn attribute(rule: &Rule, doc: &MVal, sc: &Scenario, sw: u8, hash_seed: u64, unopt: bool) -> (String, String) {
@@ -204,7 +298,19 @@ pub fn attribute(rule: &Rule, doc: &MVal, sc: &Scenario, sw: u8, hash_seed: u64,
         Some((_, true)) => format!("CLASSICAL-{}", match_dependence(sc, doc, best, hash_seed)),
         None => "LENS-PANIC".to_owned(),
     };
-    (format!("{}:{}", class, dominant(best)), sw_name(best))
+    // is this exactly the behaviour of the reference build (a recorded known finding), or new?
+    let same = match (tested_pair(rule, doc, sc, sw, hash_seed), reference_pair(&sc.rule_text, doc, sw, sc.render.ints_signed)) {
+        (Some(t), Some(r)) if t.0 != t.1 => {
+            if t == r {
+                "=ref"
+            } else {
+                "!ref"
+            }
+        }
+        // the reference build cannot evaluate this rule: nothing recorded explains the difference
+        _ => "?ref",
+    };
+    (format!("{}:{}{}", class, dominant(best), same), sw_name(best))
 }
 
 pub fn execute(sc: &Scenario) -> Outcome {
